@@ -54,6 +54,11 @@ EVIL = [("__dom___max_0_1", 1), ("__dom___min_0_1", 1), ("__max_0_1", 1), ("__ma
 
 # hand-written edge cases (each is also run through the mutations)
 TEST_PROGRAMS = [
+    # several objectives with the SAME (weight, priority, terms) tuple text: the other statement can contribute the same ground tuple
+    "{pick(P,V)} :- skill(P,V). best(P,V) :- person(P), V = #max{S : pick(P,S)}. #minimize{V@1,P : best(P,V)}. #minimize{V@1,P : bonus(P,V)}.",
+    "{pick(P,V)} :- skill(P,V). best(P,V) :- person(P), V = #min{S : pick(P,S)}. #maximize{V@2,P : best(P,V)}. #maximize{V@2,P : bonus(P,V)}. #minimize{V@1,P : other(P,V)}.",
+    "{pick(P,V)} :- skill(P,V). best(P,V) :- person(P), V = #max{S : pick(P,S)}. :~ best(P,V). [V@1,P] :~ bonus(P,V). [V@1,P]",
+    "{pick(P,V)} :- skill(P,V). best(P,V) :- person(P), V = #max{S : pick(P,S)}. #minimize{V@1,P : best(P,V)}. #minimize{V@1,P : best(P,V), extra(P)}.",
     # argument order of the result predicate differs from (rest_vars…, max_var)
     "{ sel(P,V) } :- skill(P,V).\nres(X,P) :- person(P), X = #max { V : sel(P,V) }.\n#minimize { X,P : res(X,P) }.",
     "{ sel(P,V) } :- skill(P,V).\nres(X,P) :- person(P), X = #max { V : sel(P,V) }.\ntot(S) :- S = #sum { X,P : res(X,P) }.",
